@@ -1357,9 +1357,18 @@ def main3():
         print("src2v3_fresh: FAILED", e)
 
 
+def main3r():
+    """Tie A level 1 for the repair loop: tools/src2v3_repair.py -> coq/gen/Src3r.v (fails closed inside)"""
+    sys.path.insert(0, os.path.dirname(os.path.abspath(__file__)))
+    import src2v3_repair
+    src2v3_repair.main(os.environ.get("VERIF_REPO", "/repo"),
+                       os.environ.get("VERIF_SRC3R_OUT") or os.path.join(os.path.dirname(os.path.normpath(OUT)), "Src3r.v"))
+
+
 if __name__ == "__main__":
     main()
     main2()
     import src2v3_reader  # work package readerT: coq/gen/Src3d.v (fails closed per item)
     src2v3_reader.main()
     main3()
+    main3r()
